@@ -105,7 +105,8 @@ func (c *Change) Replace(d data.Data, cl Changelog) (*ast.File, error) {
 }
 
 // parenthesizeStarOperands puts parentheses around binary expressions that a
-// replacement placed directly below a "*".
+// replacement placed directly below a "*", and around receive-only channel
+// types placed directly below "chan".
 //
 // go/printer adds the parentheses an operand needs by looking at operator
 // precedence, except below a StarExpr: the parser never produces one there
@@ -116,6 +117,15 @@ func parenthesizeStarOperands(f *ast.File) {
 		if star, ok := n.(*ast.StarExpr); ok {
 			if bin, ok := star.X.(*ast.BinaryExpr); ok {
 				star.X = &ast.ParenExpr{Lparen: bin.Pos(), X: bin, Rparen: bin.End()}
+			}
+		}
+		// The same goes for a receive-only channel as the element type of a
+		// bidirectional one: "chan (<-chan int)" printed without the
+		// parentheses reads "chan<- chan int", a send-only channel of
+		// channels.
+		if ch, ok := n.(*ast.ChanType); ok && ch.Dir == ast.SEND|ast.RECV {
+			if el, ok := ch.Value.(*ast.ChanType); ok && el.Dir == ast.RECV {
+				ch.Value = &ast.ParenExpr{Lparen: el.Pos(), X: el, Rparen: el.End()}
 			}
 		}
 		return true
